@@ -40,6 +40,21 @@ for q in (QD, QS):
 return True
 '''
 
+ESC_K = '''
+# every string over " ' backslash a (selectors realised by if-chains, so the quoting code - also if it uses `re` - runs on concrete text)
+def ch(c):
+    return '"' if c == 0 else ("'" if c == 1 else (chr(92) if c == 2 else "a"))
+s = {S}
+for q in (QD, QS):
+    once = q.escape_quotes(s)
+    if q.escape_quotes(once) != once:
+        return False
+    st = q.standardise_quotes(s)
+    if q.standardise_quotes(st) != st:
+        return False
+return True
+'''
+
 INFO = {
     "explanation": "C04: idempotence of formatting through the template-symbolic pipeline on already-formatted skeletons under several option sets, "
                    "plus the quoting projections on symbolic strings.",
@@ -75,4 +90,9 @@ def obligations(tier, seed):
         src = ESC + harness("h", cs, conj([f"okc({n})" for n, _ in cs]), ESC_BODY.format(S=chr_expr("c", L)))
         obs.append(Ob(name=f"C04-ESC/L{L}", source=src, pct=600, timeout=700,
                       meta={"desc": f"escape_quotes / standardise_quotes are idempotent on every string of {L} code points (quotes and backslashes included)", "functions": ["Quoter.escape_quotes", "Quoter.standardise_quotes"]}))
+    for L in ((3, 5, 6) if tier == "quick" else (3, 4, 5, 6, 7)):
+        cs = chars("k", L)
+        src = ESC + harness("h", cs, conj([f"({n} >= 0) & ({n} < 4)" for n, _ in cs]), ESC_K.format(S=" + ".join(f"ch(k{i})" for i in range(L))))
+        obs.append(Ob(name=f"C04-ESC/K4.L{L}", source=src, pct=900, timeout=1000,
+                      meta={"desc": f"escape_quotes / standardise_quotes idempotent on all {4 ** L} strings of length {L} over \" ' backslash a", "functions": ["Quoter.escape_quotes", "Quoter.standardise_quotes"]}))
     return obs
